@@ -256,8 +256,13 @@ def gen_chain(g, n_target=None, force_worm=None, self_locking=None,
                     'alpha': list(aq),
                     'd': g.q('Length', r.uniform(5e-3, 60e-3))
                     if 'd' in sub_w else None}
+            beta_wheel = beta
+            if worm_master and g.chance(0.25):
+                # only the pressure angles of a worm pair must agree: the
+                # wheel's own helix angle may differ from the worm's
+                beta_wheel = r.uniform(2.0, hmax * 0.985) * pi / 180
             wheel = {'kind': 'WormWheel', 'z': g.teeth(), 'J': g.inertia(),
-                     'beta': g.q('Angle', beta, bu if g.chance(0.7) else None),
+                     'beta': g.q('Angle', beta_wheel, bu if g.chance(0.7) else None),
                      'alpha': list(aq),
                      'm': g.q('Length', g.optional_gear_data())
                      if 'm' in sub_wh else None,
@@ -1177,6 +1182,12 @@ def gen_query(g, profile='query'):
         g, profile, n_target=r.choice([2, 3, 4, 5, 6, 8, 10]),
         force_worm=True if g.chance(0.45) else None,
         data_level=r.choice([None, None, None, 2, 0]))
+    mot0 = scn['elements'][0]
+    if mot0['i0'] is not None and mot0['imax'] is not None and g.chance(0.08):
+        # only one of the two optional currents: the current is not
+        # computable, nothing about it is advertised or recorded
+        mot0[r.choice(['i0', 'imax'])] = None
+        model = model_of(scn['elements'], scn['decls'])
     k = rm.rate_constant(model, chain)[0]
     scn['load'] = gen_load(g, model, chain)
     scn['init'] = gen_init(g, model, chain)
